@@ -132,7 +132,7 @@ class IPv4FlowSpec(NLRI):
         elif 0 < masklen <= 8:
             ip_hex = ip_hex[0:1]
         elif masklen == 0:
-            ip_hex = ''
+            ip_hex = b''
         return struct.pack('!B', masklen) + ip_hex
 
     @classmethod
